@@ -599,6 +599,41 @@ func famServeWant(want ...string) family {
 				}
 			}
 		}
+		// deterministic coincidence stress: one ACRH line naming a SUBSET of the allowed names, padded with empty elements to
+		// the exact byte length of the full joined list (and one byte around it)
+		for _, names := range [][]string{{"X-Bar", "X-Foo"}, {"A", "Bb", "Ccc", "Dddd"}, {"Content-Type", "X-Requested-With"}} {
+			c := &cors.Config{Origins: []string{"https://example.com"}, RequestHeaders: names, Methods: []string{"PUT"}}
+			lower := make([]string, len(names))
+			for i, n := range names {
+				lower[i] = strings.ToLower(n)
+			}
+			sort.Strings(lower)
+			full := len(strings.Join(lower, ","))
+			for _, debug := range []bool{false, true} {
+				m := newMW(c, debug)
+				if m == nil {
+					continue
+				}
+				for mask := 0; mask < 1<<len(lower) && mask < 16; mask++ {
+					var sub []string
+					for i, n := range lower {
+						if mask&(1<<i) != 0 {
+							sub = append(sub, n)
+						}
+					}
+					base := strings.Join(sub, ",")
+					for d := -1; d <= 1; d++ {
+						pad := full + d - len(base)
+						if pad < 0 || pad > 16 {
+							continue
+						}
+						for _, line := range []string{base + strings.Repeat(",", pad), strings.Repeat(",", pad) + base} {
+							emitOne(c, debug, m, reqT{method: "OPTIONS", hdrs: http.Header{"Origin": {"https://example.com"}, "Access-Control-Request-Method": {"PUT"}, "Access-Control-Request-Headers": {line}}}, "coincidence-stress/acrh-length")
+						}
+					}
+				}
+			}
+		}
 		// deterministic size stress: requested-header lists of 9 000 bytes in one line and in 2 000 lines, from an allowed
 		// and from a disallowed origin, with an allowed and a disallowed method (the refusal must look the same)
 		{
